@@ -17,7 +17,10 @@ import (
 	"math/big"
 )
 
-type Val any // *big.Int | bool | string
+type Val any // *big.Int | bool | string | sliceVal
+
+// sliceVal is a slice of values (read-only in the evaluated subset).
+type sliceVal []Val
 
 type evalEnv struct {
 	f     *Fn
@@ -31,7 +34,10 @@ type evalUndecided struct{ msg string }
 
 func undecided(format string, a ...any) { panic(evalUndecided{fmt.Sprintf(format, a...)}) }
 
-type returned struct{ vals []Val }
+type returned struct {
+	vals []Val
+	ctl  string // "" = return, "continue", "break"
+}
 
 // EvalFn runs f's body with the given parameter values and returns its results.
 // An unsupported construct yields an error: the caller must treat that as "undecided".
@@ -63,6 +69,9 @@ func (f *Fn) EvalFn(args []Val, ext func(f *Fn, call *ast.CallExpr, recv Val, ar
 	if r == nil {
 		return nil, nil
 	}
+	if r.ctl != "" {
+		undecided("stray %s", r.ctl)
+	}
 	return r.vals, nil
 }
 
@@ -82,7 +91,7 @@ func (e *evalEnv) stmt(s ast.Stmt) *returned {
 		for _, r := range x.Results {
 			vals = append(vals, e.expr(r))
 		}
-		return &returned{vals}
+		return &returned{vals: vals}
 	case *ast.BlockStmt:
 		return e.block(x.List)
 	case *ast.IfStmt:
@@ -156,6 +165,17 @@ func (e *evalEnv) stmt(s ast.Stmt) *returned {
 			switch x.Tok {
 			case token.DEFINE, token.ASSIGN:
 				e.vars[o] = vals[i]
+			case token.ADD_ASSIGN, token.SUB_ASSIGN:
+				cur, ok1 := e.vars[o].(*big.Int)
+				d, ok2 := vals[i].(*big.Int)
+				if !ok1 || !ok2 {
+					undecided("arithmetic assignment on non-int")
+				}
+				if x.Tok == token.ADD_ASSIGN {
+					e.vars[o] = new(big.Int).Add(cur, d)
+				} else {
+					e.vars[o] = new(big.Int).Sub(cur, d)
+				}
 			default:
 				undecided("assignment operator %s", x.Tok)
 			}
@@ -178,6 +198,89 @@ func (e *evalEnv) stmt(s ast.Stmt) *returned {
 		}
 		return nil
 	case *ast.EmptyStmt:
+		return nil
+	case *ast.BranchStmt:
+		if x.Label == nil && x.Tok == token.CONTINUE {
+			return &returned{ctl: "continue"}
+		}
+		if x.Label == nil && x.Tok == token.BREAK {
+			return &returned{ctl: "break"}
+		}
+		undecided("branch statement %s", x.Tok)
+	case *ast.IncDecStmt:
+		id, ok := x.X.(*ast.Ident)
+		if !ok {
+			undecided("inc/dec of %s", types.ExprString(x.X))
+		}
+		o := e.f.Info.ObjectOf(id)
+		v, ok := e.vars[o].(*big.Int)
+		if !ok {
+			undecided("inc/dec of non-int")
+		}
+		d := int64(1)
+		if x.Tok == token.DEC {
+			d = -1
+		}
+		e.vars[o] = new(big.Int).Add(v, big.NewInt(d))
+		return nil
+	case *ast.RangeStmt:
+		// for i := range n  (integer range)
+		n, ok := e.expr(x.X).(*big.Int)
+		if !ok || x.Value != nil {
+			undecided("range over non-integer")
+		}
+		var ko types.Object
+		if id, ok := x.Key.(*ast.Ident); ok && id.Name != "_" {
+			ko = e.f.Info.ObjectOf(id)
+		}
+		for i := int64(0); i < n.Int64(); i++ {
+			if ko != nil {
+				e.vars[ko] = big.NewInt(i)
+			}
+			if r := e.block(x.Body.List); r != nil {
+				if r.ctl == "continue" {
+					continue
+				}
+				if r.ctl == "break" {
+					break
+				}
+				return r
+			}
+		}
+		return nil
+	case *ast.ForStmt:
+		if x.Init != nil {
+			if r := e.stmt(x.Init); r != nil {
+				return r
+			}
+		}
+		for iter := 0; ; iter++ {
+			if iter > 100000 {
+				undecided("loop bound exceeded")
+			}
+			if x.Cond != nil {
+				c, ok := e.expr(x.Cond).(bool)
+				if !ok {
+					undecided("non-boolean loop condition")
+				}
+				if !c {
+					break
+				}
+			}
+			if r := e.block(x.Body.List); r != nil {
+				if r.ctl == "break" {
+					break
+				}
+				if r.ctl != "continue" {
+					return r
+				}
+			}
+			if x.Post != nil {
+				if r := e.stmt(x.Post); r != nil {
+					return r
+				}
+			}
+		}
 		return nil
 	}
 	undecided("unsupported statement %T at %s", s, e.f.C.pos(s.Pos()))
@@ -378,8 +481,25 @@ func (e *evalEnv) expr(x ast.Expr) Val {
 				undecided("division by zero")
 			}
 			return new(big.Int).Rem(li, ri)
+		case token.SHR:
+			if ri.Sign() < 0 || ri.BitLen() > 10 {
+				undecided("shift count")
+			}
+			return new(big.Int).Rsh(li, uint(ri.Int64()))
+		case token.SHL:
+			if ri.Sign() < 0 || ri.BitLen() > 10 {
+				undecided("shift count")
+			}
+			return new(big.Int).Lsh(li, uint(ri.Int64()))
 		}
 		undecided("binary %s", x.Op)
+	case *ast.IndexExpr:
+		sl, ok := e.expr(x.X).(sliceVal)
+		ix, ok2 := e.expr(x.Index).(*big.Int)
+		if !ok || !ok2 || ix.Sign() < 0 || ix.Int64() >= int64(len(sl)) {
+			undecided("index out of range or non-slice in %s", types.ExprString(x))
+		}
+		return sl[ix.Int64()]
 	case *ast.CallExpr:
 		// conversion between integer types: value-preserving for the representatives used
 		if tv, ok := e.f.Info.Types[x.Fun]; ok && tv.IsType() && len(x.Args) == 1 {
@@ -616,4 +736,91 @@ func (f *Fn) evalMod(e ast.Expr, px, py types.Object, M *big.Int, extern func(ca
 		return modAbs{}, fmt.Errorf("operator %s", x.Op)
 	}
 	return modAbs{}, fmt.Errorf("expression %T", e)
+}
+
+// bytesOnlyZeroAndShiftTested verifies that every element read of the first (slice)
+// parameter of f occurs as `p[i] == 0`, `p[i] != 0`, `0 == p[i]`, `0 != p[i]` or as the
+// shifted operand of such a comparison (`p[i] >> k == 0`). Then a byte influences the
+// result only through its number of leading zero bits.
+func bytesOnlyZeroAndShiftTested(f *Fn) (ast.Node, string) {
+	var pobj types.Object
+	for _, fld := range f.Type.Params.List {
+		for _, nm := range fld.Names {
+			if pobj == nil {
+				pobj = f.Info.Defs[nm]
+			}
+		}
+	}
+	var bad ast.Node
+	why := ""
+	var stack []ast.Node
+	isZero := func(e ast.Expr) bool {
+		v, ok := f.ConstVal(e)
+		return ok && v == "0"
+	}
+	ast.Inspect(f.Body, func(n ast.Node) bool {
+		if n == nil {
+			stack = stack[:len(stack)-1]
+			return true
+		}
+		stack = append(stack, n)
+		if bad != nil {
+			return true
+		}
+		id, ok := n.(*ast.Ident)
+		if !ok || f.Info.ObjectOf(id) != pobj {
+			return true
+		}
+		// expected ancestors: IndexExpr -> [BinaryExpr SHR ->] BinaryExpr EQL/NEQ with 0
+		k := len(stack) - 2
+		for k >= 0 {
+			if _, ok := stack[k].(*ast.ParenExpr); ok {
+				k--
+				continue
+			}
+			break
+		}
+		ix, ok := stack[k].(*ast.IndexExpr)
+		if !ok || ast.Unparen(ix.X) != ast.Expr(id) {
+			bad, why = id, "used other than as p[i]"
+			return true
+		}
+		k--
+		var cur ast.Expr = ix
+		for k >= 0 {
+			if _, ok := stack[k].(*ast.ParenExpr); ok {
+				cur = stack[k].(ast.Expr)
+				k--
+				continue
+			}
+			break
+		}
+		be, ok := stack[k].(*ast.BinaryExpr)
+		if ok && be.Op == token.SHR && ast.Unparen(be.X) == ast.Unparen(cur) {
+			cur = be
+			k--
+			for k >= 0 {
+				if _, ok := stack[k].(*ast.ParenExpr); ok {
+					cur = stack[k].(ast.Expr)
+					k--
+					continue
+				}
+				break
+			}
+			be, ok = stack[k].(*ast.BinaryExpr)
+		}
+		if !ok || (be.Op != token.EQL && be.Op != token.NEQ) {
+			bad, why = ix, "element not compared with ==/!="
+			return true
+		}
+		other := be.X
+		if ast.Unparen(be.X) == ast.Unparen(cur) {
+			other = be.Y
+		}
+		if !isZero(other) {
+			bad, why = be, "element compared with a non-zero value"
+		}
+		return true
+	})
+	return bad, why
 }
